@@ -62,13 +62,10 @@ def _cfg_with(name, **subst):
 def plan(tier, seed):
     """TLC design runs: name -> (module, kwargs, exhaustive)"""
     jobs = collections.OrderedDict()
-    jobs['tails'] = ('TailMaps', dict(cfg='TailMaps.cfg', workers=2), True)
-    jobs['rewrite'] = ('ChainRewrite', dict(cfg='ChainRewrite.cfg', workers=3), True)
-    jobs['rewrite-cov'] = ('ChainRewrite', dict(cfg='ChainRewrite_cov.cfg', coverage=True, workers=2), True)
+    jobs['rewrite'] = ('ChainRewrite', dict(cfg='ChainRewrite.cfg', coverage=True, workers=4), True)
     jobs['rewrite-mutant'] = ('ChainRewrite', dict(cfg='ChainRewrite_mutant.cfg', workers=2), True)
     jobs['seq'] = ('SeqNesting', dict(cfg='SeqNesting.cfg', workers=4), True)
     if tier == 'quick':
-        jobs['rewrite-len3'] = ('ChainRewrite', dict(cfg='ChainRewrite_len3.cfg', workers=3), True)
         jobs['seq-sim'] = ('SeqNesting', dict(cfg='SeqNesting_sim.cfg', simulate=dict(num=6), depth=6, seed=seed, workers=2, timeout=600), False)
         muts = [LOOKUP_MUTANTS[seed % len(LOOKUP_MUTANTS)]]
     else:
@@ -109,15 +106,16 @@ def run(rep):
         table, tpath = c11_chain.export_to_file()
         ftab = pool.submit(c11_chain.run_tables, tpath)
         seqcases = c11_trace.seq_cases(rep, rng)
-        fseq = pool.submit(c11_trace.validate, seqcases, 'trace-seq')
         loccases, locfails = c11_trace.locate_cases(rep, rng)
-        floc = pool.submit(c11_trace.validate, loccases, 'trace-locate')
+        ftrace = pool.submit(c11_trace.validate, seqcases + loccases, 'trace')
         rep.lap('tables exported, real topologies recorded')
         results = dict(f.result() for f in futures)
-        c11_chain.judge_tables(rep, table, ftab.result())
-        (v1, r1), (v2, r2) = fseq.result(), floc.result()
+        tabres = ftab.result()
+        c11_chain.judge_tables(rep, table, tabres)
+        verdicts, rtrace = ftrace.result()
+        v1, v2 = verdicts[:len(seqcases)], verdicts[len(seqcases):]
     rep.lap('tlc runs')
-    rep.extra['tlc_wall_s'] = dict({name: round(res.wall, 1) for name, res in results.items()}, **{'tables': round(ftab.result().wall, 1), 'trace-seq': round(r1.wall, 1) if r1 else 0, 'trace-locate': round(r2.wall, 1) if r2 else 0})
+    rep.extra['tlc_wall_s'] = dict({name: round(res.wall, 1) for name, res in results.items()}, **{'tables': round(tabres.wall, 1), 'trace': round(rtrace.wall, 1) if rtrace else 0})
 
     # ---- design-level verdicts
     for name, res in results.items():
@@ -131,7 +129,7 @@ def run(rep):
         rep.add_tlc(res, exhaustive=exhaustive)
         if res.violated:
             raise RuntimeError('design spec {} violates {}:\n{}'.format(name, res.violated, '\n'.join(res.error_trace[:60])))
-    cov = results['rewrite-cov'].coverage
+    cov = results['rewrite'].coverage
     missing = [a for a in CHAIN_ACTIONS if cov.get(a, (0, 0))[1] == 0]
     if missing:
         raise RuntimeError('ChainRewrite: actions never taken: {}'.format(missing))
@@ -164,7 +162,7 @@ def run(rep):
     rep.lap('rewrite replay')
 
     # ---- S->C: sequences
-    c11_seq.set_tailmaps(results['tails'].emitted)
+    c11_seq.set_tailmaps(tabres.emitted)
     states, seen = [], set()
     opcount = collections.Counter()
     for name, res in results.items():
@@ -214,9 +212,8 @@ def run(rep):
     # ---- C->S: real topologies (verdicts of TraceTopo)
     for f in locfails:
         rep.violation(*f)
-    for r in (r1, r2):
-        if r is not None:
-            rep.add_tlc(r)
+    if rtrace is not None:
+        rep.add_tlc(rtrace)
     nobs = nif = 0
     for case, v in zip(seqcases, v1):
         rep.case(('trace', case['name']), nontrivial=True)
